@@ -259,6 +259,16 @@ def extract(repo):
                             if isinstance(c, ast.List):
                                 forb = [ast.literal_eval(e) for e in c.elts]
         put("vectorizeForbiddenBackends", forb)
+        # the network-wide ring-buffer requirement flag (`NetworkGraph._uses_edge_delay_buffer`): sticky iff, outside `__init__`, it is only ever
+        # assigned the constant True (a later connection cannot take the requirement of an earlier one back)
+        ic = _parse(repo, "pyrates/ir/circuit.py")
+        ng = _class(ic, "NetworkGraph")
+        vals = []
+        for fn in [n for n in ng.body if isinstance(n, ast.FunctionDef) and n.name != "__init__"] if ng else []:
+            for n in ast.walk(fn):
+                if isinstance(n, ast.Assign) and any(ast.unparse(t) == "self._uses_edge_delay_buffer" for t in n.targets):
+                    vals.append(isinstance(n.value, ast.Constant) and n.value.value is True)
+        put("ringFlagSticky", (all(vals) if vals else None))
     except Exception as e:  # pragma: no cover
         missing.append(f"backends: {e}")
     return T, missing
@@ -402,6 +412,7 @@ def render(T, missing):
             "true" if own else "false", "true" if attr(k, "SUPPORTS_SPARSE_JACOBIAN", True) is True else "false",
             "true" if attr(k, "SUPPORTS_EDGE_DELAY_BUFFER", True) is True else "false"))
     L.append("def backends : List BackendT := [" + ",\n  ".join(items) + "]")
+    L.append(f"def ringFlagSticky : Bool := {'true' if T.get('ringFlagSticky') is True else 'false'}")
     L.append(f"def vectorizeForbiddenBackends : List String := {lean_list([str(x) for x in (T.get('vectorizeForbiddenBackends') or [])])}")
     ab = T.get("autoBlocked") or [0, 0]
     L.append(f"def autoBlockedLo : Nat := {int(ab[0])}")
